@@ -1,5 +1,6 @@
 import Upd.Cas2
 import Upd.Reg
+import Upd.Server
 /-! scratch: C01 on the pilot model — every blob is keyed by the hash of its bytes, in every reachable state,
     for every history of blob, upload, manifest, tag and referrers requests -/
 namespace Upd
@@ -28,7 +29,7 @@ theorem indexRemove_inv (s : State) (r : String) (d : Desc) (h : Inv s) : Inv (i
   unfold indexRemove; exact index_only s r _ h
 
 theorem resps_only (s : State) (x : List (String × List Desc)) (h : Inv s) : Inv { s with resps := x } := h
-theorem rcache_only (s : State) (x : List ((String × String) × List Desc)) (h : Inv s) : Inv { s with rcache := x } := h
+theorem rcache_only (s : State) (x : List ((String × String × String × String) × List (List Desc))) (h : Inv s) : Inv { s with rcache := x } := h
 
 theorem storeResp_inv (s : State) (r subject : String) (ds : List Desc) (h : Inv s) : Inv (storeResp s r subject ds) := by
   unfold storeResp
@@ -54,23 +55,93 @@ theorem mCommit_inv (s : State) (r b : String) (a : Accepted) (h : Inv s) (hd : 
   · exact referrerAdd_inv _ _ _ _ h2
   · exact h2
 
-/-- an accepted manifest is stored under the digest of exactly the bytes that were received -/
-theorem mValidate_digest (s : State) (r ref ct qd b : String) (a : Accepted) (h : mValidate s r ref ct qd b = .ok a) :
-    a.d.content = b := by
-  unfold mValidate refuse at h
-  simp only [bind, Except.bind, pure, Except.pure] at h
+theorem bind_ok {α β : Type} (x : Except Resp α) (f : α → Except Resp β) (b : β) (h : (x >>= f) = .ok b) :
+    ∃ v, x = .ok v ∧ f v = .ok b := by
+  cases x with
+  | error e => simp [bind, Except.bind] at h
+  | ok v => exact ⟨v, rfl, by simpa [bind, Except.bind] using h⟩
+
+theorem validateImage_d (ro : Bool) (rp : Repo) (b : Body) (mt tag : String) (d : Dig) (a : Accepted)
+    (h : validateImage ro rp b mt tag d = .ok a) : a.d = d := by
+  unfold validateImage refuse at h
   repeat' split at h
   all_goals first
-    | (cases h; rfl)
+    | (simp [pure, Except.pure] at h; rw [← h])
     | (simp at h)
+theorem validateIndex_d (ro : Bool) (rp : Repo) (b : Body) (mt tag : String) (d : Dig) (a : Accepted)
+    (h : validateIndex ro rp b mt tag d = .ok a) : a.d = d := by
+  unfold validateIndex refuse at h
+  repeat' split at h
+  all_goals first
+    | (simp [pure, Except.pure] at h; rw [← h])
+    | (simp at h)
+theorem validateBody_d (ro : Bool) (rp : Repo) (b : Body) (mt tag : String) (d : Dig) (a : Accepted)
+    (h : validateBody ro rp b mt tag d = .ok a) : a.d = d := by
+  unfold validateBody at h
+  split at h
+  · exact validateImage_d _ _ _ _ _ _ _ h
+  · split at h
+    · exact validateIndex_d _ _ _ _ _ _ _ h
+    · simp [refuse] at h
 
-theorem mPut_inv (s : State) (r ref ct qd b : String) (h : Inv s) : Inv (mPut s r ref ct qd b).1 := by
+theorem checkDigest_ok (e : Option Dig) (d : Dig) (u : Unit) (h : checkDigest e d = .ok u) : ∀ x, e = some x → x = d := by
+  intro x hx
+  subst hx
+  unfold checkDigest at h
+  split at h
+  · simp [refuse] at h
+  · rename_i hne
+    simp only [Option.isSome_some, ne_eq, Option.some.injEq, true_and, Decidable.not_not] at hne
+    exact hne
+
+/-- an accepted manifest is stored under the digest of exactly the bytes that were received -/
+theorem mValidate_digest (s : State) (r ref ct qd b : String) (lk : Bool) (a : Accepted) (h : mValidate s r ref ct qd b lk = .ok a) :
+    a.d.content = b := by
+  unfold mValidate at h
+  obtain ⟨_, _, h⟩ := bind_ok _ _ _ h
+  obtain ⟨_, _, h⟩ := bind_ok _ _ _ h
+  obtain ⟨_, _, h⟩ := bind_ok _ _ _ h
+  obtain ⟨_, _, h⟩ := bind_ok _ _ _ h
+  obtain ⟨_, _, h⟩ := bind_ok _ _ _ h
+  obtain ⟨_, _, h⟩ := bind_ok _ _ _ h
+  rw [validateBody_d _ _ _ _ _ _ _ h]
+
+/-- the declared digest (reference or ?digest=) of an accepted manifest is the digest of the bytes received -/
+theorem mValidate_declared (s : State) (r ref ct qd b : String) (lk : Bool) (a : Accepted) (h : mValidate s r ref ct qd b lk = .ok a) :
+    (∀ d, DigArg.parse ref = .ok d → isTag ref = false → d = a.d) ∧
+    (∀ d, isTag ref = true → qd ≠ "" → DigArg.parse qd = .ok d → d = a.d) := by
+  unfold mValidate at h
+  obtain ⟨_, _, h⟩ := bind_ok _ _ _ h
+  obtain ⟨_, _, h⟩ := bind_ok _ _ _ h
+  obtain ⟨qe, hq, h⟩ := bind_ok _ _ _ h
+  obtain ⟨te, ht, h⟩ := bind_ok _ _ _ h
+  obtain ⟨_, _, h⟩ := bind_ok _ _ _ h
+  obtain ⟨_, hc, h⟩ := bind_ok _ _ _ h
+  have had := validateBody_d _ _ _ _ _ _ _ h
+  have hexp : ∀ e, te.2 = some e → e = a.d := by
+    intro e he
+    rw [had]
+    exact checkDigest_ok _ _ _ hc e he
+  constructor
+  · intro d hd hnt
+    unfold parseRef at ht
+    simp only [hnt, Bool.false_eq_true, if_false, hd] at ht
+    simp only [pure, Except.pure, Except.ok.injEq] at ht
+    exact hexp d (by rw [← ht])
+  · intro d htag hqd hd
+    unfold parseRef at ht
+    simp only [htag, if_true, pure, Except.pure, Except.ok.injEq] at ht
+    unfold parseQd at hq
+    simp only [hqd, if_false, hd, pure, Except.pure, Except.ok.injEq] at hq
+    exact hexp d (by rw [← ht, ← hq])
+
+theorem mPut_inv (s : State) (r ref ct qd b : String) (lk : Bool) (h : Inv s) : Inv (mPut s r ref ct qd b lk).1 := by
   unfold mPut
   simp only []
   have h1 := setRepo_inv s _ h (repo_ok s r h)
-  cases hv : mValidate (s.setRepo (s.repo r)) r ref ct qd b with
+  cases hv : mValidate (s.setRepo (s.repo r)) r ref ct qd b lk with
   | error e => exact h1
-  | ok a => exact mCommit_inv _ r b a h1 (mValidate_digest _ r ref ct qd b a hv)
+  | ok a => exact mCommit_inv _ r b a h1 (mValidate_digest _ r ref ct qd b lk a hv)
 
 theorem mDel_inv (s : State) (r arg : String) (h : Inv s) : Inv (mDel s r arg).1 := by
   unfold mDel
@@ -84,7 +155,7 @@ theorem mDel_inv (s : State) (r arg : String) (h : Inv s) : Inv (mDel s r arg).1
       | exact h1
       | exact referrerDelete_inv _ _ _ _ h1
 
-theorem mGet_inv (s : State) (r arg : String) (acc : List String) (head : Bool) (h : Inv s) : Inv (mGet s r arg acc head).1 := by
+theorem mGet_inv (s : State) (r arg : String) (acc : List String) (head : Bool) (rng : String) (h : Inv s) : Inv (mGet s r arg acc head rng).1 := by
   unfold mGet
   simp only []
   have h1 := setRepo_inv s _ h (repo_ok s r h)
@@ -98,7 +169,7 @@ theorem tags_inv (s : State) (r n last : String) (h : Inv s) : Inv (tags s r n l
   repeat' split
   all_goals exact h1
 
-theorem refs_inv (s : State) (r arg filter : String) (h : Inv s) : Inv (refs s r arg filter).1 := by
+theorem refs_inv (s : State) (r arg filter cache page : String) (h : Inv s) : Inv (refs s r arg filter cache page).1 := by
   unfold refs
   simp only []
   have h1 := setRepo_inv s _ h (repo_ok s r h)
@@ -107,52 +178,45 @@ theorem refs_inv (s : State) (r arg filter : String) (h : Inv s) : Inv (refs s r
     | exact h1
     | exact rcache_only _ _ h1
 
-/-- the request alphabet of the pilot -/
-inductive Req
-  | uPost (r : String) (q : Q) | uPatch (r : String) (sid : Nat) (q : Q) | uPut (r : String) (sid : Nat) (q : Q)
-  | uGet (r : String) (sid : Nat) | uDel (r : String) (sid : Nat)
-  | bGet (r arg : String) (head : Bool) | bDel (r arg : String)
-  | mPut (r ref ct qd body : String) | mGet (r ref : String) (accept : List String) (head : Bool) | mDel (r ref : String)
-  | tags (r n last : String) | refs (r arg filter : String)
+/-- the dispatch of `ServeHTTP` (switches, read-only, name checks) keeps the invariant -/
+theorem step_inv (s : State) (q : Req) (h : Inv s) : Inv (Upd.step s q).1 := by
+  cases q <;> simp only [Upd.step] <;> repeat' split
+  all_goals first
+    | exact h
+    | exact uPost_inv _ _ _ h
+    | exact uPatch_inv _ _ _ _ h
+    | exact uPut_inv _ _ _ _ h
+    | exact uGet_inv _ _ _ h
+    | exact uDel_inv _ _ _ h
+    | exact bGet_inv _ _ _ _ _ h
+    | exact bDel_inv _ _ _ h
+    | exact mPut_inv _ _ _ _ _ _ _ h
+    | exact mGet_inv _ _ _ _ _ _ h
+    | exact mDel_inv _ _ _ h
+    | exact tags_inv _ _ _ _ h
+    | exact refs_inv _ _ _ _ _ _ h
+
+/-- events of a history: requests, body definitions (the harness' `DEF`), and nothing else changes the state -/
+inductive Ev
+  | req (q : Req)
   | defBody (name : String) (b : Body)
 
-def step (s : State) : Req → State
-  | .uPost r q => (Upd.uPost s r q).1 | .uPatch r i q => (Upd.uPatch s r i q).1 | .uPut r i q => (Upd.uPut s r i q).1
-  | .uGet r i => (Upd.uGet s r i).1 | .uDel r i => (Upd.uDel s r i).1
-  | .bGet r a hd => (Upd.bGet s r a hd).1 | .bDel r a => (Upd.bDel s r a).1
-  | .mPut r ref ct qd b => (Upd.mPut s r ref ct qd b).1 | .mGet r ref acc hd => (Upd.mGet s r ref acc hd).1 | .mDel r ref => (Upd.mDel s r ref).1
-  | .tags r n l => (Upd.tags s r n l).1 | .refs r a f => (Upd.refs s r a f).1
+def stepEv (s : State) : Ev → State
+  | .req q => (Upd.step s q).1
   | .defBody name b => { s with defs := s.defs ++ [(name, b)] }
 
-theorem step_inv (s : State) (q : Req) (h : Inv s) : Inv (step s q) := by
-  cases q with
-  | uPost r q => exact uPost_inv s r q h
-  | uPatch r i q => exact uPatch_inv s r i q h
-  | uPut r i q => exact uPut_inv s r i q h
-  | uGet r i => exact uGet_inv s r i h
-  | uDel r i => exact uDel_inv s r i h
-  | bGet r a hd => exact bGet_inv s r a hd h
-  | bDel r a => exact bDel_inv s r a h
-  | mPut r ref ct qd b => exact mPut_inv s r ref ct qd b h
-  | mGet r ref acc hd => exact mGet_inv s r ref acc hd h
-  | mDel r ref => exact mDel_inv s r ref h
-  | tags r n l => exact tags_inv s r n l h
-  | refs r a f => exact refs_inv s r a f h
+theorem stepEv_inv (s : State) (e : Ev) (h : Inv s) : Inv (stepEv s e) := by
+  cases e with
+  | req q => exact step_inv s q h
   | defBody name b => exact h
 
-/-- C01 on the pilot model: in every state reachable by any history, every blob of every repository is stored under the
-    hash of its bytes and every open session's digester has seen exactly the bytes written -/
-theorem reach_inv (hist : List Req) : Inv (hist.foldl step {}) := by
-  have : ∀ (l : List Req) (s : State), Inv s → Inv (l.foldl step s) := by
+/-- C01: in every state reachable by any history under any configuration, every blob of every repository is stored
+    under the hash of its bytes and every open session's digester has seen exactly the bytes written -/
+theorem reach_inv (conf : Conf) (hist : List Ev) : Inv (hist.foldl stepEv { conf := conf }) := by
+  have : ∀ (l : List Ev) (s : State), Inv s → Inv (l.foldl stepEv s) := by
     intro l
     induction l with
     | nil => intro s h; exact h
-    | cons q rest ih => intro s h; exact ih _ (step_inv s q h)
-  exact this hist {} (by intro rp hrp; simp at hrp)
-
--- Non-vacuity is checked by running the driver (the two-chunk upload `UPOST r ; UPATCH r s1 state=0 body=ab ;
--- UPUT r s1 state=2 digest=sha256:abc body=c ; BGET r sha256:abc` answers 200 with body abc, on the model and on
--- the real server). A kernel-checked `example … := by decide` is not possible on this pilot model because it
--- computes with `String` (splitOn, toNat?), which the kernel does not reduce: the real model keeps strings in the
--- driver only and computes with structured ids, so that `decide` works on witnesses and examples.
+    | cons q rest ih => intro s h; exact ih _ (stepEv_inv s q h)
+  exact this hist { conf := conf } (by intro rp hrp; simp at hrp)
 end Upd
